@@ -2,6 +2,7 @@ import Jwt.Lemmas.Builder
 import Jwt.Generated.JsonCalls
 import Jwt.Props.C11
 import Jwt.Props.C15
+import Jwt.Lemmas.PipelineBuilder
 /-!
 # C10 — generated tokens are well-formed and say exactly what the builder was told
 -/
@@ -221,5 +222,28 @@ theorem C10_json_calls :
       ("jwt-setget.c", "jwt_get_json", "json_dumps", "var:JSON_COMPACT|JSON_INDENT(4)|JSON_SORT_KEYS"),
       ("jwt-setget.c", "jwt_set_json", "json_loads", "var:JSON_REJECT_DUPLICATES"),
       ("jwt-verify.c", "jwt_base64uri_decode_to_json", "json_loads", "0")] := by decide
+
+/-- **`jwt_builder_generate` and `jwt_encode` are the source's.** The order of the tests of `jwt_builder_generate`,
+`jwt_head_setup` and `jwt_encode` is *generated* from `jwt-common.c` / `jwt-encode.c`
+(`Jwt/Generated/Pipeline.lean`). The model returns a token exactly when the generated `jwt_builder_generate`, fed with
+the model's quantities, returns non-NULL; a token comes out of the model's `encodeToken` exactly when the generated
+`jwt_encode` returns 0; `jwt_head_setup` yields headers exactly when the generated one returns 0. -/
+theorem C10_generate_is_source (env : Env) (b : Builder) :
+    ((generate env b).2.isSome ↔ (builderGenerateGen env b.cfg).1 ≠ 0) :=
+  (builderGenerate_generated env b).1
+
+theorem C10_encode_is_source (env : Env) (headers claims : Json) (alg : Alg) (key : Option KeyItem) (signRet : Nat) (hs : signRet ≠ 0) :
+    (∃ t, (encodeToken env headers claims alg key).1 = .ok t) ↔ (encodeGen env headers claims alg key signRet).1 = 0 :=
+  encode_generated env headers claims alg key signRet hs
+
+theorem C10_head_setup_is_source (headers : Json) (alg : Alg) (x : Bool) :
+    ((∃ h, headSetup headers alg = .ok h) ↔
+      (Jwt.Generated.Pipeline.headSetup (alg ≠ .none) (if alg ≠ .none then (typSet headers alg).2 ≠ .none else x) ((typSet headers alg).2 ≠ .exist)
+        ((algSet (typSet headers alg).1 alg).2 ≠ .none)).1 = 0) :=
+  (headSetup_generated headers alg x).1
+
+-- in the generated `jwt_encode`, an unsigned token never reaches `jwt_sign`; a signed one depends on its outcome
+example : (Jwt.Generated.Pipeline.encode false false false false false false true true 7 false false).1 = 0 := by decide
+example : (Jwt.Generated.Pipeline.encode false false false false false false false true 7 false false) = (7, true) := by decide
 
 end Jwt.Props.C10
